@@ -336,6 +336,7 @@ func (w *World) newInterp(cfg *Config, sol *Solver, prefix []Decision) *Interp {
 		sentinel:   map[string]Value{},
 		concrete:   map[string]uint64{},
 		ext:        map[string]interface{}{},
+		ext2:       map[interface{}]interface{}{},
 		world:      w,
 		constCache: map[*ssa.Const]Value{},
 		strCache:   map[string]StrV{},
@@ -352,7 +353,7 @@ func (w *World) newInterp(cfg *Config, sol *Solver, prefix []Decision) *Interp {
 func (w *World) newInterpShared(a *Interp) *Interp {
 	in := &Interp{
 		prog: w.Prog, st: a.st, sol: a.sol, ps: a.ps, cfg: a.cfg, globals: map[*ssa.Global]*Cell{}, out: a.out,
-		varCount: map[string]int{}, sentinel: map[string]Value{}, concrete: map[string]uint64{}, ext: map[string]interface{}{},
+		varCount: map[string]int{}, sentinel: map[string]Value{}, concrete: map[string]uint64{}, ext: map[string]interface{}{}, ext2: map[interface{}]interface{}{},
 		world: w, constCache: map[*ssa.Const]Value{}, strCache: map[string]StrV{}, bounds: a.bounds,
 	}
 	in.growExact = a.growExact
